@@ -46,6 +46,7 @@ package icmp
 // C03: capture filter text: "icmp and icmp[0]!=8" (everything but echo requests), then " and ip src net " + subnet if given
 //@ func BPFFilter
 //@   props C03
+//@   modifies nothing
 //@   observe (*strings.Builder).WriteString, (*strings.Builder).String, (*net.IPNet).String
 //@   entry row bare: [call WriteString(_, "icmp and icmp[0]!=8") ; call String(_) as (res)] when r.DstSubnet == nil && ret0 == res && ret1 == 1518 -> exit
 //@   entry row net:  [call WriteString(_, "icmp and icmp[0]!=8") ; call WriteString(_, " and ip src net ") ; call String(r.DstSubnet) as (ns) ; call WriteString(_, ns) ; call String(_) as (res)]
